@@ -451,6 +451,29 @@ func checkSamples(c *Checker, sent, received, update *ssa.Function, fSentTimes, 
 	resentIs := func(b *ssa.BasicBlock, val bool) bool {
 		return hasFact(b, func(f Fact) bool { return f.Cond == resent && f.Val == val })
 	}
+	// extraFacts: a condition on the way to b other than the static-mode test, the packet type and
+	// the resent flag ("" if none)
+	extraFacts := func(b *ssa.BasicBlock) string {
+		extra := ""
+		for _, f := range factsAt(b) {
+			switch x := f.Cond.(type) {
+			case *ssa.Parameter:
+				continue // resent
+			case *ssa.Extract:
+				if _, isTA := x.Tuple.(*ssa.TypeAssert); isTA {
+					continue
+				}
+			case *ssa.UnOp:
+				if x.Op == token.MUL {
+					if fa, ok := x.X.(*ssa.FieldAddr); ok && structFieldOf(fa).Name() == "useStaticTimeout" {
+						continue
+					}
+				}
+			}
+			extra = w.canonFB(f.Cond)
+		}
+		return extra
+	}
 	nIns, nDel, nZero, nSet := 0, 0, 0, 0
 	allInstrs(sent, func(in ssa.Instruction) {
 		switch in := in.(type) {
@@ -462,24 +485,7 @@ func checkSamples(c *Checker, sent, received, update *ssa.Function, fSentTimes, 
 				// ... and unconditionally there, with the time of THIS send: the only facts on the way are
 				// the static-mode test, the packet type and the resent flag. A sample that is kept when the
 				// sequence number is reused (window wrapped, own ACK lost) measures from the old packet.
-				extra := ""
-				for _, f := range factsAt(in.Block()) {
-					switch x := f.Cond.(type) {
-					case *ssa.Parameter:
-						continue // resent
-					case *ssa.Extract:
-						if _, isTA := x.Tuple.(*ssa.TypeAssert); isTA {
-							continue
-						}
-					case *ssa.UnOp:
-						if x.Op == token.MUL {
-							if fa, ok := x.X.(*ssa.FieldAddr); ok && structFieldOf(fa).Name() == "useStaticTimeout" {
-								continue
-							}
-						}
-					}
-					extra = w.canonFB(f.Cond)
-				}
+				extra := extraFacts(in.Block())
 				fresh := false
 				for _, v := range expandValues(in.Value) {
 					if call, ok := v.(*ssa.Call); ok && staticCalleeIs(call.Common(), "time", "", "Now") && call.Parent() == sent {
@@ -493,12 +499,24 @@ func checkSamples(c *Checker, sent, received, update *ssa.Function, fSentTimes, 
 			if b, ok := in.Call.Value.(*ssa.Builtin); ok && b.Name() == "delete" && isLoadOfField(in.Call.Args[0], fSentTimes) {
 				nDel++
 				c.decide(resentIs(in.Block(), true), "TMO-3", "Sent|sample-invalidate", instrPos(in), "the sample of a retransmitted sequence number is deleted under resent", "sample deletion is not tied to the resent flag")
+				// ... for every retransmitted packet (not only when the boost took effect, say), and for
+				// exactly the retransmitted sequence number
+				extra := extraFacts(in.Block())
+				keyOK := false
+				if fSeq := w.Field("gbn.PacketData.Seq"); fSeq != nil && len(in.Call.Args) == 2 {
+					keyOK = isLoadOfField(in.Call.Args[1], fSeq)
+				}
+				c.decide(extra == "" && keyOK, "TMO-3", "Sent|sample-invalidate is unconditional", instrPos(in), "every retransmission deletes the sample of its own sequence number",
+					"the sample of a retransmitted packet is not always deleted (extra condition: "+extra+", key is the packet's Seq: "+fmt.Sprint(keyOK)+"): the ACK of a retransmitted packet is measured against the first transmission")
 			}
 		case *ssa.Store:
 			if fa, ok := in.Addr.(*ssa.FieldAddr); ok && structFieldOf(fa) == fSYNTime {
 				if k, ok := in.Val.(*ssa.Const); ok && k.Value == nil {
 					nZero++
 					c.decide(resentIs(in.Block(), true), "TMO-3", "Sent|syn-invalidate", instrPos(in), "the SYN sample is zeroed under resent", "the SYN sample is zeroed although the SYN was not resent")
+					extra := extraFacts(in.Block())
+					c.decide(extra == "", "TMO-3", "Sent|syn-invalidate is unconditional", instrPos(in), "every resent SYN zeroes the SYN sample",
+						"the SYN sample is not always zeroed when the SYN is resent (extra condition: "+extra+")")
 				} else {
 					nSet++
 					c.decide(resentIs(in.Block(), false), "TMO-3", "Sent|syn-record", instrPos(in), "the SYN send time is recorded only under !resent",
